@@ -57,6 +57,25 @@ func c05HistoryFor(cfg c05Config) []c05Step {
 		}
 		h = append(append(append([]c05Step{}, h[:4]...), flip...), h[4:]...)
 	}
+	// an extended object that straddles the border of the area: outside for WITHIN,
+	// inside for INTERSECTS and NEARBY; placed after the crossing steps (a fence
+	// definition must not be changed by the events it has seen)
+	strad, in := "outside", "inside"
+	if cfg.Fence != "within" {
+		strad = "inside"
+	}
+	ext := []c05Step{
+		{Cmd: w("SET fk e FIELD speed 7 BOUNDS 0.5 0.5 1.5 1.5"), Verb: "set", ID: "e", Prev: "absent", New: strad},
+		{Cmd: w("SET fk e FIELD speed 7 BOUNDS -0.2 -0.2 0.2 0.2"), Verb: "set", ID: "e", Prev: strad, New: in},
+		{Cmd: w("SET fk e FIELD speed 7 BOUNDS 0.5 0.5 1.5 1.5"), Verb: "set", ID: "e", Prev: in, New: strad},
+		{Cmd: w("DEL fk e"), Verb: "del", ID: "e", Prev: strad, New: "gone"},
+	}
+	for i, st := range h {
+		if st.Cross {
+			h = append(append(append([]c05Step{}, h[:i+2]...), ext...), h[i+2:]...)
+			break
+		}
+	}
 	if cfg.Pop == "long" {
 		var pre []c05Step
 		pre = append(pre, c05Step{Cmd: w("SET fk w FIELD speed 7 POINT 0 0"), Verb: "set", ID: "w", Prev: "absent", New: "inside"})
@@ -262,6 +281,13 @@ func c05RunConfig(job *Job, res *Result, cfg c05Config) {
 			// the names under test existed before with another area and DETECT cross
 			c.Do(append([]string{"SETCHAN", "fch"}, w("WITHIN fk FENCE DETECT cross,enter BOUNDS 0.5 -3.5 1.5 -2.5")...)...)
 			c.Do(append([]string{"SETHOOK", "fhk", ep.URL()}, w("WITHIN fk FENCE DETECT cross,enter BOUNDS 0.5 -3.5 1.5 -2.5")...)...)
+		case "otherkey":
+			// fences on OTHER collections whose rectangles cover the area and its
+			// surroundings (the candidate search meets them first)
+			c.Do(w("SETCHAN o1 WITHIN other FENCE BOUNDS -5 -8 3 6")...)
+			c.Do(w("SETCHAN o2 NEARBY other2 FENCE POINT 0 -1 900000")...)
+			c.Do(w("SETCHAN o3 INTERSECTS other FENCE BOUNDS -1.5 -4 1.5 4")...)
+			c.Do(append([]string{"SETHOOK", "o4", ep.URL()}, w("WITHIN other3 FENCE BOUNDS -9 -9 9 9")...)...)
 		case "many":
 			for i := 0; i < 70; i++ {
 				c.Do(w(fmt.Sprintf("SETCHAN other%02d NEARBY fk FENCE POINT %d %d 1000", i, 20+i%8*5, 20+i/8*5))...)
@@ -352,7 +378,7 @@ func c05RunConfig(job *Job, res *Result, cfg c05Config) {
 }
 
 func checkC05(job *Job, res *Result) {
-	res.Rule = "SEQ over configurations: fence shape {NEARBY point, WITHIN bounds, INTERSECTS polygon} x 33 DETECT settings (default + all 32 subsets) x COMMANDS {none,set,del,'set,fset'} x filter {none, MATCH hit, MATCH miss, WHERE hit, WHERE miss} x population of other hooks {none, disjoint, overlapping, outside-detecting, 70 disjoint, same names previously defined with another area}; per configuration an 18-step history covering every transition of the table, FSET, DEL, PDEL, expiry, DROP (+5 filter-verdict flips under WHERE; fences created with LIMIT 2; a 106-notification prefix exceeding the default LIMIT); receivers: channel, webhook, live; distinct = distinct (configuration class, step, expected list)"
+	res.Rule = "SEQ over configurations: fence shape {NEARBY point, WITHIN bounds, INTERSECTS polygon} x 33 DETECT settings (default + all 32 subsets) x COMMANDS {none,set,del,'set,fset'} x filter {none, MATCH hit, MATCH miss, WHERE hit, WHERE miss} x population of other hooks {none, disjoint, overlapping, outside-detecting, 70 disjoint, same names previously defined with another area, fences on other collections covering the area}; per configuration an 18-step history covering every transition of the table, FSET, DEL, PDEL, expiry, DROP (+4 steps of an extended object straddling the border; +5 filter-verdict flips under WHERE; fences created with LIMIT 2; a 106-notification prefix exceeding the default LIMIT); receivers: channel, webhook, live; distinct = distinct (configuration class, step, expected list)"
 	res.Assumptions = append(res.Assumptions,
 		"a 'del' for an object that was outside the area (or fails the filter) is allowed but not required; 'drop' is required only under default detection; an FSET on an object that fails WHERE before and after may or may not produce 'outside'; a live fence connection is not asserted for DROP",
 		"an object that does not satisfy the WHERE filter counts as outside the area (a SET/FSET that flips the verdict of an object inside the area is an enter or an exit)")
@@ -362,12 +388,12 @@ func checkC05(job *Job, res *Result) {
 		for d := -1; d < 32; d++ {
 			for _, a := range []string{"", "set", "del", "set,fset"} {
 				for _, fl := range []string{"none", "match", "nomatch", "where", "nowhere", "limit"} {
-					for _, p := range []string{"none", "disjoint", "overlap", "outside", "many", "redefined", "long"} {
+					for _, p := range []string{"none", "disjoint", "overlap", "outside", "many", "redefined", "long", "otherkey"} {
 						if quick {
 							// quick: full DETECT x shape x population for the plain fence; filters and COMMANDS on a DETECT sample
 							plain := a == "" && fl == "none"
 							sample := d == -1 || d == 3 || d == 12 || d == 31
-							if !(plain && (p == "none" || p == "overlap" || ((p == "many" || p == "redefined") && d%4 == 3) || p == "long" && (d == -1 || d == 1)) || sample && p == "none") {
+							if !(plain && (p == "none" || p == "overlap" || p == "otherkey" || ((p == "many" || p == "redefined") && d%4 == 3) || p == "long" && (d == -1 || d == 1)) || sample && p == "none") {
 								continue
 							}
 						}
